@@ -201,6 +201,17 @@ type Batch struct {
 // RunCorrespondence executes n generated histories (seeds derived from e.Rng) in parallel, runs the monitor after
 // every op, compares each transcript with the model, shrinks and writes replays for failures.
 func RunCorrespondence(e *hx.Env, prop string, n int, params GenParams, mon Monitor) *Batch {
+	return RunScripted(e, prop, n, params.Par, func(i int, rng *rand.Rand) (Conf, Script, int) {
+		conf := GenConf(rng, params)
+		g := NewGen(rng, conf, params)
+		return conf, g.Next, params.Len
+	}, mon)
+}
+
+// RunScripted executes n histories concurrently (par at a time, 0 = 48): history i is produced by the script mk returns
+// for it (with its configuration and maximal length), runs against the real plugin under the monitor and is compared
+// with the model step by step; violations are shrunk and written as replays.
+func RunScripted(e *hx.Env, prop string, n int, par int, mk func(i int, rng *rand.Rand) (Conf, Script, int), mon Monitor) *Batch {
 	b := &Batch{Stats: map[string]int{}, HistoryFlags: map[string]int{}}
 	seeds := make([]int64, n)
 	for i := range seeds {
@@ -216,7 +227,6 @@ func RunCorrespondence(e *hx.Env, prop string, n int, params GenParams, mon Moni
 	results := make([]res, n)
 	shrunk := map[string]bool{}
 	var wg sync.WaitGroup
-	par := params.Par
 	if par <= 0 {
 		par = 48
 	}
@@ -228,9 +238,8 @@ func RunCorrespondence(e *hx.Env, prop string, n int, params GenParams, mon Moni
 			defer wg.Done()
 			defer func() { <-sem }()
 			rng := rand.New(rand.NewSource(seeds[i]))
-			conf := GenConf(rng, params)
-			g := NewGen(rng, conf, params)
-			t, _, err := Execute(conf, rng, g.Next, mon, params.Len)
+			conf, script, maxOps := mk(i, rng)
+			t, _, err := Execute(conf, rng, script, mon, maxOps)
 			r := res{t: t, err: err, seed: seeds[i], conf: conf}
 			if err == nil {
 				r.d, r.err = Compare(e, t)
